@@ -737,7 +737,7 @@ def provenance(body, place, at=None, adapters=PURE_ADAPTERS, max_nodes=4000, sto
                     fields = rv.get("fields")
                     ops = rv["ops"]
                     sel = None
-                    if rest:
+                    if rest and ak not in ("closure", "coroutine"):
                         # skip a leading @Variant selector
                         r0 = rest
                         if r0 and r0[0].startswith("@"):
